@@ -202,6 +202,10 @@ def _evaluate(ctx, scn, ev):
         ev.cov = [("degraded", sf["kind"], code)]
         ev.nontrivial = False
         return ev
+    if ref.started and not ref.complete:
+        # the interactive reference itself did not get to an outcome (crash or oversized log): C15's business
+        ev.counters["ref_incomplete"] += 1
+        return ev
     if not ref.started:
         # the input is refused before execution (invalid script, bad option): status must say so
         if code == 0:
